@@ -437,6 +437,25 @@ def path_values(g, func, target_nodes, exprs, labels=None):
     return out
 
 
+def argn(call, name, pos=None):
+    """The argument of ``call`` for parameter ``name``: by keyword, else at position ``pos``."""
+    for k in call.keywords:
+        if k.arg == name:
+            return k.value
+    if pos is not None and pos < len(call.args) and not any(isinstance(a, ast.Starred) for a in call.args[:pos + 1]):
+        return call.args[pos]
+    return None
+
+
+def bound(ctx, func, call):
+    """{parameter name: argument expr} through the resolved (single) package target; {} if unresolved."""
+    r = ctx.r.resolve(call, func, _count=False)
+    if r.kind != 'package' or not r.targets:
+        return {}
+    b = bind_args(ctx, call, func, r.targets[0]) or {}
+    return {k: v for k, v in b.items() if isinstance(v, ast.AST)}
+
+
 def built_list(func, name):
     """The canonical loop form of a list comprehension: `name = []` (only definition), exactly
     one `name.append(e)` inside a for loop, no other mutation of name.
